@@ -153,6 +153,7 @@ ReMatch(re, s) ==
 NoG == [has |-> FALSE, cs |-> <<>>]
 R(v) == [v |-> v, g |-> NoG]
 SeqG(g1, g2) == IF g2.has THEN g2 ELSE g1
+SetG(S, g) == IF g.has THEN [S EXCEPT !["g0"] = StrV(g.cs)] ELSE S
 
 Truth(v) == CASE v.t = "BOOL" -> BoolV(v.b)
               [] v.t = "STR"  -> BoolV(v.set)          \* a string is true iff it is set (even if empty)
@@ -171,6 +172,7 @@ Order(l, r) ==
 EqVal(l, r) ==
   CASE l.t = "STR" /\ r.t = "STR"   -> BoolV(l.set /\ r.set /\ l.cs = r.cs)     \* a not-set string equals nothing
     [] l.t = "BOOL" /\ r.t = "BOOL" -> BoolV(l.b = r.b)
+    [] l.t # r.t -> IF l.t = "BITS" \/ r.t = "BITS" THEN OorV ELSE UnspecV     \* == between different types: the reference is silent
     [] OTHER -> LET o == Order(l, r) IN IF Bad(o) THEN o ELSE BoolV(o.i = 0)
 Compare(op, l, r) ==
   IF op = "==" THEN EqVal(l, r)
@@ -215,7 +217,9 @@ Ev(e, S, ctx) ==
                         IF Bad(l.v) THEN l ELSE IF Bad(r.v) THEN r
                         ELSE [v |-> Compare(e.op, l.v, r.v), g |-> SeqG(l.g, r.g)]
     [] e.k \in {"and", "or"} ->
-                        LET l == Ev(e.l, S, ctx)  r == Ev(e.r, S, ctx) IN
+                        \* both operands are evaluated, left to right: a match in the left operand is visible
+                        \* (through re.group.0) to the right operand
+                        LET l == Ev(e.l, S, ctx)  r == Ev(e.r, SetG(S, l.g), ctx) IN
                         IF Bad(l.v) THEN l ELSE IF Bad(r.v) THEN r
                         ELSE LET a == Truth(l.v)  b == Truth(r.v) IN
                              IF Bad(a) THEN [v |-> a, g |-> NoG] ELSE IF Bad(b) THEN [v |-> b, g |-> NoG]
@@ -340,7 +344,6 @@ Store0 == [n \in Names |-> IF n \in LocalNames THEN Undecl ELSE NotSetV]
 (* status: "ok" | "err" (reported runtime error) | "unspec" | "oor"                 *)
 StatusOf(v) == CASE v.t = "ERR" -> "err" [] v.t = "UNSPEC" -> "unspec" [] v.t = "OOR" -> "oor"
 Fail(M, v) == [M EXCEPT !.st = StatusOf(v)]
-SetG(S, g) == IF g.has THEN [S EXCEPT !["g0"] = StrV(g.cs)] ELSE S
 
 RECURSIVE ExecSeq(_, _), Exec(_, _), ExecIf(_, _, _), ExecCase(_, _, _, _)
 
